@@ -130,11 +130,11 @@ def parse(ddl, **kw):
 
 
 def try_parse(ddl, **kw):
-    """-> ('ok', result) | ('exc', ExceptionTypeName, message)"""
+    """-> ('ok', result) | ('exc', ExceptionTypeName, message, [names of the exception's classes])"""
     try:
         return ("ok", parse(ddl, **kw))
     except Exception as e:  # the parser's contract is examined by the caller
-        return ("exc", type(e).__name__, str(e)[:300])
+        return ("exc", type(e).__name__, str(e)[:600], [c.__name__ for c in type(e).__mro__])
 
 
 def no_comments(result):
